@@ -9,7 +9,10 @@ SPEC = dict(
           "BATCHes of these, GETDATA snapshots mid-history, and the in-process subtree operations CloneDataNodeSubtree / SaveNodeTreeToMessage / "
           "RestoreNodeTreeFromMessage (saved trees and hostile tree Messages: index entries twice, strangers, parts missing or mistyped) / "
           "SetDataNode(insert-before) through a StorageReflectSession subclass that maps four harness command codes to that protected API, plus "
-          "GETDATATREES and SETDATATREES (must be bounced, tree unchanged).  Every session may subscribe (plainly, two patterns at once, or "
+          "GETDATATREES and SETDATATREES (must be bounced, tree unchanged).  A quarter of the histories run on a server whose central state sets small "
+          "limits (3-6 children per node and/or 6-30 nodes per session, possibly different for later joiners) and 3% have index nodes at depth 99 and "
+          "100 (MUSCLE_MAX_NODE_DEPTH), so that ordered inserts by every path are refused at arbitrary points (a refused insert must leave no trace); "
+          "a third of the sessions use only one index-creating operation all their life.  Every session may subscribe (plainly, two patterns at once, or "
           "BATCH{quiet subscribe, GETDATA}) to its OWN and to foreign index nodes and unsubscribe (it forgets a list after the pong behind "
           "REMOVEPARAMETERS); it applies every PR_RESULT_INDEXUPDATED string in arrival order (c / i<pos>:<name> / r<pos>:<name>); an insert "
           "beyond the end, a remove that names another entry or lies beyond the end, or a malformed string is a violation by itself.  At every "
@@ -20,10 +23,11 @@ SPEC = dict(
           "nodes are empty.  A fraction of inserts/reorders is bracketed by quiescent points and compared with the positions StorageReflectConstants.h "
           "documents.  A history is non-trivial when at least one compared index was non-empty and at least 10 index-update instructions were "
           "replayed.  regress: fixed witnesses F15, F32, repeated add-to-index, hostile restore, save/restore/clone round trip, SETDATATREES bounce, "
-          "documentation examples of INSERTORDEREDDATA/REORDERDATA, the two clone findings, oracle self-tests."),
+          "documentation examples of INSERTORDEREDDATA/REORDERDATA, the two clone findings, refused ordered inserts (child / node / depth limit), oracle self-tests."),
     assumptions=['a quiescent point is 6 consecutive rounds in which no client and no server step moved a byte (single-threaded bench, no clocks)',
                  'the subscription strings used are literals, *, (a|b): the 20-line matcher of reflectbench.h is the independent reference for "subscribed to"',
                  'nodes at/under <session>/Q are the quiet zone: PR_NAME_REMOVE_QUIETLY and SETDATANODE_FLAG_QUIET+!Rmv change an index silently by design, so their replay is not compared (structure and observer view are)',
+                 'limits are set the way a production server is configured (PR_NAME_MAX_CHILDREN_PER_NODE / PR_NAME_MAX_NODES_PER_SESSION in ReflectServer::GetCentralState(), read by a session when it attaches)',
                  'the protected subtree API is driven by a session subclass handling harness command codes sent by its own client, the way customised muscle daemons use it',
                  'the positional semantics checked are only those StorageReflectConstants.h states; reorder before itself / before a non-indexed child is counted as unspecified',
                  'StorageReflectSession::_indexingPresent is read in process (explicit template instantiation, no change to /repo) only to classify the clone finding',
@@ -31,11 +35,11 @@ SPEC = dict(
                  'g++ 12 ASan/UBSan/LSan and valgrind memcheck report what they claim to report'],
     legs=[
         Leg('regress', 'h_index', 'asan', opts={'mode': 'regress'}, quick=1, thorough=1, workers=1, leaks=True, min_cases=1),
-        Leg('index', 'h_index', 'asan', opts={'mode': 'index', 'ops': 80}, quick=4800, thorough=240000, workers=16, leaks=True),
+        Leg('index', 'h_index', 'asan', opts={'mode': 'index', 'ops': 80}, quick=4800, thorough=240000, workers=16, leaks=True, stall_wall=600.0),
         Leg('memcheck', 'h_index', 'plain', opts={'mode': 'index', 'ops': 80}, quick=48, thorough=1600, workers=16, valgrind=True),
     ],
     min_stats={'regress': {'selftest_oracle_fired': 11, 'regress_F15': 1, 'regress_F32': 1, 'regress_structure': 1, 'regress_doc_examples': 1,
-                           'regress_clone_own_subscription': 1, 'regress_clone_twice': 1, 'settrees_bounced': 1},
+                           'regress_clone_own_subscription': 1, 'regress_clone_twice': 1, 'regress_refusals': 1, 'settrees_bounced': 1},
                'index': {'quiescent_points': 60000, 'comparisons': 600000, 'comparisons_own_node': 250000, 'comparisons_foreign_node': 250000,
                          'comparisons_nonempty_own_node': 80000, 'comparisons_nonempty_foreign_node': 80000, 'entries_compared': 400000,
                          'idxop_c': 15000, 'idxop_i': 80000, 'idxop_r': 15000, 'snapshots_own_node': 7000, 'snapshots_foreign_node': 7000,
@@ -45,6 +49,8 @@ SPEC = dict(
                          'clones_of_indexed_source': 2000, 'clones_onto_existing_destination': 1500, 'restores_of_hostile_trees': 4000,
                          'restores_of_saved_trees': 1000, 'trees_saved_by_getdatatrees': 5000, 'save_ok': 1000, 'setnode_ok': 4000, 'settrees_bounced': 1500,
                          'semantic_checks_insert': 2000, 'semantic_checks_insert_before_existing_sibling': 1000, 'semantic_checks_reorder': 1200,
-                         'removal_notices': 10000, 'max_op_kinds_in_one_history': 19, 'max_index_length': 12},
+                         'removal_notices': 10000, 'max_op_kinds_in_one_history': 19, 'max_index_length': 12,
+                         'histories_with_limits': 800, 'histories_with_deep_index_nodes': 60, 'ordered_inserts_refused_by_child_limit': 500,
+                         'ordered_inserts_refused_by_node_limit': 300, 'ordered_inserts_refused_by_depth_limit': 50, 'semantic_checks_refused_insert': 250, 'max_node_depth': 100},
                'memcheck': {'comparisons': 3000, 'idxop_i': 500, 'idxop_r': 80, 'idxop_c': 80}},
 )
